@@ -114,6 +114,15 @@ def run_check(prop, tier='quick', seed=0, strict=False, procs=None):
             elif o['result'] == 'refuted':
                 violations.append(handle_refuted(prop, r, o, fam_by_name[r['family']]))
             else:
+                fam_ = fam_by_name[r['family']]
+                if o.get('inputs') is not None and r['function'] in fam_.replay:
+                    # candidate counter-model (quantifier-free part only): believed only if it replays
+                    v = handle_refuted(prop, r, o, fam_)
+                    if v.get('reproduced'):
+                        violations.append(v)
+                        undecided_functions.append((r['function'], 'obligation %s undecided by the solvers '
+                                                    '(candidate input replayed natively: reproduced)' % o['label']))
+                        continue
                 base = baseline.get(r['function'], {})
                 if o['label'] in base.get('discharged', []) and base.get('sha256') != r.get('sha256'):
                     # the obligation was discharged on the unchanged tree; the function's text changed and the
